@@ -150,12 +150,13 @@ Section M.
     else Some (rows', nround_np num_ops 2 (pw_sum (map r_dz rows'))).
 
   (* ---------------------------------------------------------------------------------------------
-     read_model_parameters:
+     read_model_parameters (as of /repo commit 1d078f4):
        while soil.zSoil < crop.Zmax + 0.1:
            for i in soil.profile.index[::-1]:
                if dz[i] < 0.25: dz[i] += 0.1; soil.fill_nan(); break
-     When no compartment is thinner than 0.25 m the for loop ends without a change and the while loop
-     spins for ever: the model burns its fuel and returns None. *)
+           else:
+               dz[index[-1]] += 0.1; soil.fill_nan()      # every compartment is >= 0.25: the bottom one keeps growing
+     [fuel] bounds the number of iterations of the while loop (None when exhausted). *)
   Fixpoint grow_last (rows : list Row) : option (list Row) :=
     match rows with
     | [] => None
@@ -166,18 +167,32 @@ Section M.
       end
     end.
 
+  (* the else branch: profile.index[-1] (IndexError on an empty profile) *)
+  Fixpoint grow_bottom (rows : list Row) : option (list Row) :=
+    match rows with
+    | [] => None
+    | [r] => Some [set_dz r (r_dz r + 1#/10)]
+    | r :: rest => match grow_bottom rest with Some rest' => Some (r :: rest') | None => None end
+    end.
+
+  Definition grow_step (rows : list Row) : option (list Row) :=
+    match grow_last rows with
+    | Some rows' => Some rows'
+    | None => grow_bottom rows
+    end.
+
   Fixpoint deepen (fuel : nat) (zmax : F) (rows : list Row) (zsoil : F) : option (list Row * F) :=
     match fuel with
     | O => None
     | S f =>
       if zsoil <? zmax + 1#/10 then
-        match grow_last rows with
+        match grow_step rows with
         | Some rows' =>
           match fill_nan rows' with
           | Some (rows'', zs') => deepen f zmax rows'' zs'
           | None => None
           end
-        | None => deepen f zmax rows zsoil
+        | None => None
         end
       else Some (rows, zsoil)
     end.
